@@ -330,8 +330,17 @@ def misuse_and_wait_rules(rep, fns):
                 eq = "==" in a
                 # the branch on which owner_id_ != invalid (the mutex is owned: its owner's unlock will notify)
                 return raw.get("label") == (("false" if pos else "true") if eq else ("true" if pos else "false"))
-            okh = all(precedes_on_all_paths(fn10, lambda x: x.get("k") == "call" and callee_short(x) == "notify_one" and x.get("recv") is not None and P(x["recv"]) == "this->cond_",
-                                            (tb, ti), edge_pred=seen_owned, eh=True) for tb, ti, _ in rethrows)
+            is_wait10 = lambda x: x.get("k") == "call" and callee_short(x) in ("wait", "wait_until") and x.get("recv") is not None and P(x["recv"]) == "this->cond_"
+            is_ntf10 = lambda x: x.get("k") == "call" and callee_short(x) == "notify_one" and x.get("recv") is not None and P(x["recv"]) == "this->cond_"
+
+            def tr10(st, x, pos):
+                if is_wait10(x):
+                    return False              # what was known about the owner before the wait is stale: the wait released the internal lock
+                return True if is_ntf10(x) else st
+            from engine.core import forward as _fw10
+            bef10, _, _ = _fw10(fn10, False, tr10, None, lambda a_, b_: a_ and b_, eh=True, edge_raw=lambda st, blk, raw: True if seen_owned(blk, raw) else st,
+                                handler_entry=lambda st, x: False if is_wait10(x) else st)
+            okh = all(bef10.get((tb, ti)) for tb, ti, _ in rethrows)
             if okh:
                 rep.ok("C06.R10", fn10, "%s: the handler around the wait passes the hand-off on (notify_one when the mutex is free) before it rethrows" % short10)
             else:
